@@ -117,6 +117,10 @@ func buildC17(t *Tree, cell c17Cell) *Scenario {
 		sc.Files = append(sc.Files, File{Path: t.path("errors/500"), Data: "<h1>CUSTOM_ERROR_PAGE</h1>{{ undefinedInErrorPage }}", Role: "errorpage"})
 	case "missing":
 		cfg.ErrPage = "errors/nope"
+	case "layouted":
+		// the error page uses the same layout as the pages and fills fewer of its reserves than they do
+		cfg.ErrPage = "errors/layouted"
+		sc.Files = append(sc.Files, File{Path: t.path("errors/layouted"), Data: "@use(\"layouts/main\")\n@insert(\"content\")<h1>CUSTOM_ERROR_PAGE</h1><p>sorry</p>@end\n", Role: "errorpage"})
 	case "late":
 		// works only once the function it calls has been registered
 		cfg.ErrPage = "errors/late"
@@ -289,6 +293,9 @@ func checkC17Cfg(sc *Scenario, acc *Acc, cfgOverride *Cfg) (*c17Fail, bool, bool
 			marks = append(marks, sentinel+"_")
 		}
 		for _, m := range marks {
+			if cpRef != nil && cpRef.Kind == "ok" && strings.Contains(cpRef.Out, m) {
+				continue // the error page itself legitimately shows it (it uses the same layout / components)
+			}
 			if strings.Contains(resp.Body, m) {
 				return &c17Fail{"the body contains part of the failed page", "failed-page-leaks-into-body", "no occurrence of " + m, short(resp.Body)}, false, false
 			}
@@ -422,7 +429,10 @@ func (p c17) Run(seed uint64, run int, tier string, acc *Acc) *Violation {
 	for fp := -6; fp < nfp; fp++ {
 		kind := r.Intn(len(failingStmts))
 		for _, debug := range []bool{false, true} {
-			for _, custom := range []string{"", "valid", "failing", "missing"} {
+			for _, custom := range []string{"", "valid", "failing", "missing", "layouted"} {
+				if custom == "layouted" && (debug || fp < 0) {
+					continue // only where it differs from "valid": debug off, a failure inside the page
+				}
 				cell := c17Cell{Page: page, FP: fp, Kind: kind, Debug: debug, Custom: custom}
 				sc := buildC17(t, cell)
 				sc.Seed, sc.Run = seed, run
